@@ -119,13 +119,13 @@ class G:
         larger trees, so trees grow deep and wide instead of staying pairs."""
         rng = self.rng
         shape = self.cfg.get("shape", "mixed")
-        if shape != "mixed" and rng.random() < 0.6:
+        if shape != "mixed" and rng.random() < (0.97 if self.cfg.get("huge_fanout") else 0.6):
             s = self.snap
             if shape == "wide":
                 # a few hubs collect most children: long sibling lists
                 par = self.V.cands("par", self.sess)
                 if par:
-                    top = sorted(par, key=lambda h: -len(s.cells[h][CH]))[:2]
+                    top = sorted(par, key=lambda h: -len(s.cells[h][CH]))[:1 if self.cfg.get("huge_fanout") else 2]
                     return rng.choice(top)
             else:
                 # keep extending the most recently attached nodes: deep chains
